@@ -74,8 +74,10 @@ def pinhole_cases(draw, nmax):
             dq.append(S.sig(v * draw(st.floats(1.0, 2.5)), 4))
     user = draw(st.integers(0, 4)) == 0 and n >= 2
     via = (not user) and draw(st.integers(0, 2)) == 0
+    # width of the window in sigmas: the documented default (2.5 below, 3 above), or the caller's own
+    nsig = None if via else draw(st.sampled_from([None, None, None, 2.0, 4.0, [4.0, 5.0], [3.0, 1.5]]))
     return {"geom": "pinhole", "grid": kind, "q": q, "dq": dq, "user_qcalc": user,
-            "refine": draw(st.integers(1, 3)), "via_direct": via}
+            "refine": draw(st.integers(1, 3)), "via_direct": via, "nsigma": nsig}
 
 
 @st.composite
@@ -134,7 +136,11 @@ def check_resolution(case, rec):
     qmin_cut = 0.02 * q.min()
     if geom == "pinhole":
         dq = np.array(case["dq"], float)
-        lo, hi = q - 2.5 * dq, q + 3.0 * dq
+        nsig = case.get("nsigma")
+        ns_lo, ns_hi = (2.5, 3.0) if nsig is None else (tuple(nsig) if isinstance(nsig, list) else (nsig, nsig))
+        if nsig is not None:
+            rec.cls("pinhole-nsigma-given")
+        lo, hi = q - ns_lo * dq, q + ns_hi * dq
         windows = list(zip(lo, hi))
         kind = "pinhole:" + ("zero" if not dq.any() else ("mixed" if (dq == 0).any() else "width"))
         q_calc = None
@@ -151,7 +157,11 @@ def check_resolution(case, rec):
             else:
                 q_calc = np.sort(np.concatenate([q] + inner + [np.asarray(below)[np.asarray(below) > 0], above]))
             rec.cls("user-q_calc")
-        build = lambda: resolution.Pinhole1D(q, dq, q_calc=q_calc)
+        if nsig is None:
+            build = lambda: resolution.Pinhole1D(q, dq, q_calc=q_calc)
+        else:
+            build = lambda: resolution.Pinhole1D(q, dq, q_calc=q_calc,
+                                                 nsigma=tuple(nsig) if isinstance(nsig, list) else nsig)
     else:
         L, W = np.array(case["L"], float), np.array(case["W"], float)
         lo, hi = q - W, np.sqrt((q + W) ** 2 + L ** 2)
